@@ -18,13 +18,15 @@ deriving DecidableEq, Repr, Inhabited
 
 abbrev Attrs := List (Str × AVal)
 
+/-- prepend one character to an already split text -/
+def splitOnCons (sep c : Char) : List Str → List Str
+  | [] => [[]]            -- unreachable: splitOn never returns []
+  | hd :: tl => if c == sep then [] :: hd :: tl else (c :: hd) :: tl
+
 /-- `str.split(sep)` for a one-character separator -/
 def splitOn (sep : Char) : Str → List Str
   | [] => [[]]
-  | c :: cs =>
-    match splitOn sep cs with
-    | [] => [[]]            -- unreachable: splitOn never returns []
-    | hd :: tl => if c == sep then [] :: hd :: tl else (c :: hd) :: tl
+  | c :: cs => splitOnCons sep c (splitOn sep cs)
 
 def digitsOf (s : Str) : Str × Str := (s.takeWhile Char.isDigit, s.dropWhile Char.isDigit)
 
@@ -90,21 +92,20 @@ def collect (s : Str) : Py (List Str × List (Str × Str)) :=
     surplus keywords. TypeError (reported by the caller as SyntaxError) for surplus positionals, a
     parameter given twice, or surplus keywords without `**kwargs`. -/
 def bindSig (sig : DialectSig) (args : List Str) (kwargs : List (Str × Str)) :
-    Py (List (AnnoParam × Str) × List (Str × Str)) := do
-  if args.length > sig.params.length then throw PyErr.syntax
-  let positional := (sig.params.zip args)
-  let names := sig.params.map (·.name)
-  -- keyword that names a parameter already filled positionally
-  if kwargs.any fun kv => (positional.any fun pa => pa.1.name == kv.1) then throw PyErr.syntax
-  let byKw := sig.params.filterMap fun p =>
-    if positional.any (fun pa => pa.1.name == p.name) then none
-    else (kwargs.lookup p.name).map fun v => (p, v)
-  let extra := kwargs.filter fun kv => !names.contains kv.1
-  if !sig.acceptKwargs && !extra.isEmpty then throw PyErr.syntax
-  -- the VAR_KEYWORD parameter itself is called `kwargs`; a keyword of that name is a surplus keyword
-  let bound := sig.params.filterMap fun p =>
-    (positional.find? fun pa => pa.1.name == p.name).orElse fun _ => byKw.find? fun pa => pa.1.name == p.name
-  pure (bound, extra)
+    Py (List (AnnoParam × Str) × List (Str × Str)) :=
+  if args.length > sig.params.length then .error .syntax
+  else
+    let positional := (sig.params.zip args)
+    -- keyword that names a parameter already filled positionally
+    if kwargs.any fun kv => (positional.any fun pa => pa.1.name == kv.1) then .error .syntax
+    else
+      let extra := kwargs.filter fun kv => !(sig.params.map (·.name)).contains kv.1
+      if !sig.acceptKwargs && !extra.isEmpty then .error .syntax
+      else
+        -- the VAR_KEYWORD parameter itself is called `kwargs`; a keyword of that name is a surplus keyword
+        let bound := sig.params.filterMap fun p =>
+          (positional.find? fun pa => pa.1.name == p.name).or ((kwargs.lookup p.name).map fun v => (p, v))
+        .ok (bound, extra)
 
 /-- check_and_cast_types on a supplied value -/
 def castVal (p : AnnoParam) (v : Str) : Py AVal :=
@@ -119,10 +120,8 @@ def defaultVal : AnnoDefault → AVal
   | .str s => .str s
   | .num n _ => .num n 0
 
-/-- dialects.py `_parse_dialect_string` -/
-def parseAnno (sig : DialectSig) (s : Str) : Py Attrs := do
-  let (args, kwargs) ← collect s
-  let (bound, extra) ← bindSig sig args kwargs
+/-- everything after `Signature.bind`: cast, defaults, drop None, rename, merge free keywords -/
+def finishAnno (sig : DialectSig) (bound : List (AnnoParam × Str)) (extra : List (Str × Str)) : Py Attrs := do
   -- cast supplied values (in parameter order)
   let supplied ← bound.mapM fun (p, v) => do pure (p.name, ← castVal p v)
   -- apply_defaults, then drop None
@@ -138,6 +137,12 @@ def parseAnno (sig : DialectSig) (s : Str) : Py Attrs := do
   -- free keywords first, then the arguments (which override equal keys)
   let out : Attrs := extra.foldl (fun acc (k, v) => pySet acc k (.str v)) []
   pure (renamed.foldl (fun acc (k, v) => pySet acc k v) out)
+
+/-- dialects.py `_parse_dialect_string` -/
+def parseAnno (sig : DialectSig) (s : Str) : Py Attrs := do
+  let (args, kwargs) ← collect s
+  let (bound, extra) ← bindSig sig args kwargs
+  finishAnno sig bound extra
 
 /-- `parse_graph_base_node` -/
 def parseBase (s : Str) : Py Attrs := parseAnno baseDialect s
